@@ -46,8 +46,8 @@ Qed.
 
 Lemma sal_bound : 0 < final_alignment f <= 128.
 Proof.
-  pose proof (sal_pos f WF). split; auto. unfold final_alignment.
-  destruct R as [_ [R1 [R2 _]]]. pose proof (wc_nat_le _ _ (wi_cc f WF)). lia.
+  pose proof (sal_pos f WF). split; auto. unfold final_alignment, requested_alignment. cbv zeta.
+  destruct R as [_ [R1 [R2 _]]]. pose proof (wc_nat_le _ _ (wi_cc f WF)). destruct (fi_align_fix f && _); lia.
 Qed.
 
 (* nothing wraps: every quantity finalize computes stays below 2^31, so uint32_t arithmetic and the model's integers agree;
